@@ -157,9 +157,72 @@ Check C19_strings_log : forall sss : list (list text),
   Forall (Forall (Forall scalar)) sss -> read text de_str (sessions text ser_str [] sss) = Some (concat sss).
 Print Assumptions C19_strings_log.
 
-(* ---------- where the contract fails on the current tree ---------- *)
-(* F16: one record whose line serde_json rejects (a lint whose context holds a Number with a non-finite value
-   is written with `null`) makes Stats::read reject the WHOLE log, the valid records around it included *)
+(* ---------- the records of the property: made from text (since b5c1992 + abf6ba7: no exception left) ----------
+   record = harper_stats::Record; from_text r = r is a configuration update or was made by RecordKind::from_lint
+   from a lexed + linted text; numbers r = the f64 values of the Number tokens of r's context; finite = is_finite.
+   Hypotheses (each monitored on the implementation in every run and pinned by C19_source_shape):
+     lexer  every Number made from text is finite (lex_number accepts only is_finite() candidates; lex_hex_number
+            converts a u64; no other code builds a Number; JSON cannot denote a non-finite number);
+     value  serde_json reads back the record it wrote when its Numbers are finite (derive + float_roundtrip) —
+            before abf6ba7 this also needed "every Number is one serde_json re-reads exactly" (F29);
+     shape  what serde writes outside string literals is printable ASCII.
+   Conclusion, for ALL lists of such records, whatever characters their captured text contains: *)
+Theorem C19_text_records_roundtrip : forall (record : Type) (shape : record -> list piece) (de : bytes -> option record)
+  (F : Type) (finite : F -> Prop) (numbers : record -> list F) (from_text : record -> Prop),
+  (forall r, from_text r -> Forall finite (numbers r)) ->
+  (forall r, Forall finite (numbers r) -> de (render (shape r)) = Some r) ->
+  (forall r, Forall finite (numbers r) -> forallb lit_okb (shape r) = true) ->
+  forall rs, Forall from_text rs -> read record de (write record (fun r => render (shape r)) rs) = Some rs.
+Proof. exact text_records_roundtrip. Qed.
+Check C19_text_records_roundtrip : forall (record : Type) (shape : record -> list piece) (de : bytes -> option record)
+  (F : Type) (finite : F -> Prop) (numbers : record -> list F) (from_text : record -> Prop),
+  (forall r, from_text r -> Forall finite (numbers r)) ->
+  (forall r, Forall finite (numbers r) -> de (render (shape r)) = Some r) ->
+  (forall r, Forall finite (numbers r) -> forallb lit_okb (shape r) = true) ->
+  forall rs, Forall from_text rs -> read record de (write record (fun r => render (shape r)) rs) = Some rs.
+Print Assumptions C19_text_records_roundtrip.
+
+Theorem C19_text_records_append : forall (record : Type) (shape : record -> list piece) (de : bytes -> option record)
+  (F : Type) (finite : F -> Prop) (numbers : record -> list F) (from_text : record -> Prop),
+  (forall r, from_text r -> Forall finite (numbers r)) ->
+  (forall r, Forall finite (numbers r) -> de (render (shape r)) = Some r) ->
+  (forall r, Forall finite (numbers r) -> forallb lit_okb (shape r) = true) ->
+  forall a b, Forall from_text a -> Forall from_text b ->
+  read record de (write record (fun r => render (shape r)) a ++ write record (fun r => render (shape r)) b) = Some (a ++ b).
+Proof. exact text_records_append. Qed.
+Check C19_text_records_append : forall (record : Type) (shape : record -> list piece) (de : bytes -> option record)
+  (F : Type) (finite : F -> Prop) (numbers : record -> list F) (from_text : record -> Prop),
+  (forall r, from_text r -> Forall finite (numbers r)) ->
+  (forall r, Forall finite (numbers r) -> de (render (shape r)) = Some r) ->
+  (forall r, Forall finite (numbers r) -> forallb lit_okb (shape r) = true) ->
+  forall a b, Forall from_text a -> Forall from_text b ->
+  read record de (write record (fun r => render (shape r)) a ++ write record (fun r => render (shape r)) b) = Some (a ++ b).
+Print Assumptions C19_text_records_append.
+
+(* any number of append sessions onto any well-terminated log that reads back as `old` *)
+Theorem C19_text_records_sessions : forall (record : Type) (shape : record -> list piece) (de : bytes -> option record)
+  (F : Type) (finite : F -> Prop) (numbers : record -> list F) (from_text : record -> Prop),
+  (forall r, from_text r -> Forall finite (numbers r)) ->
+  (forall r, Forall finite (numbers r) -> de (render (shape r)) = Some r) ->
+  (forall r, Forall finite (numbers r) -> forallb lit_okb (shape r) = true) ->
+  forall file old ss, terminated file -> read record de file = Some old -> Forall (Forall from_text) ss ->
+  read record de (sessions record (fun r => render (shape r)) file ss) = Some (old ++ concat ss).
+Proof. exact text_records_sessions. Qed.
+Check C19_text_records_sessions : forall (record : Type) (shape : record -> list piece) (de : bytes -> option record)
+  (F : Type) (finite : F -> Prop) (numbers : record -> list F) (from_text : record -> Prop),
+  (forall r, from_text r -> Forall finite (numbers r)) ->
+  (forall r, Forall finite (numbers r) -> de (render (shape r)) = Some r) ->
+  (forall r, Forall finite (numbers r) -> forallb lit_okb (shape r) = true) ->
+  forall file old ss, terminated file -> read record de file = Some old -> Forall (Forall from_text) ss ->
+  read record de (sessions record (fun r => render (shape r)) file ss) = Some (old ++ concat ss).
+Print Assumptions C19_text_records_sessions.
+
+(* ---------- outside the contract: what one line that serde does not read back as written does ----------
+   No record made from text is outside the contract any more (F16 fixed by b5c1992, F29 by abf6ba7).  The two
+   theorems stay as the exact description of what the reverse of either fix brings back (the reverse-fix
+   mutation tests show precisely these effects), and of what a line damaged by another writer does. *)
+(* one record whose line serde_json rejects (before b5c1992: a lint whose context held a Number with a non-finite
+   value, written with `null` — F16) makes Stats::read reject the WHOLE log, the valid records around it included *)
 Theorem C19_one_bad_line_loses_all : forall (record : Type) (ser : record -> bytes) (de : bytes -> option record) (valid : record -> Prop),
   (forall r, valid r -> de (ser r) = Some r) -> (forall r, valid r -> line_ok (ser r)) ->
   forall a r b, Forall valid a -> ~ In 10 (ser r) -> de (strip_cr (ser r)) = None ->
@@ -171,32 +234,30 @@ Check C19_one_bad_line_loses_all : forall (record : Type) (ser : record -> bytes
   read record de (write record ser (a ++ r :: b)) = None.
 Print Assumptions C19_one_bad_line_loses_all.
 
-(* the concrete witness (lines and serde verdicts as observed on the implementation for `1e999TH`):
-   with the lint record the log is unreadable, without it the other two records read back *)
-Theorem C19_nonfinite_refuted :
+(* HISTORY, not a statement about the current code: the three lines harper-stats wrote BEFORE b5c1992 for
+   (config update, the lint on `1e999TH`, config update) with serde_json's verdicts; with the lint record the
+   log was unreadable, without it the other two read back.  (Was Theorem C19_nonfinite_refuted; the text now
+   lexes as 1e99 + 9TH and corpus/C19/f16.json passes the oracle.) *)
+Example C19_nonfinite_old_refuted :
   snd (run_sessions f16_table [] [[f16_good1; f16_bad]; [f16_good2]]) = None /\
   snd (run_sessions f16_table [] [[f16_good1]; [f16_good2]]) = Some [0; 2].
 Proof. exact f16_witness. Qed.
-Check C19_nonfinite_refuted :
-  snd (run_sessions f16_table [] [[f16_good1; f16_bad]; [f16_good2]]) = None /\
-  snd (run_sessions f16_table [] [[f16_good1]; [f16_good2]]) = Some [0; 2].
-Print Assumptions C19_nonfinite_refuted.
 
-(* F29: a record that serde_json reads back as a different record (a Number whose shortest decimal form
-   serde_json's default float parser does not parse exactly) comes back altered, in place; the log is
+(* a record that serde_json reads back as a different record (before abf6ba7: a Number whose shortest decimal
+   form serde_json's default float parser did not parse exactly — F29) comes back altered, in place; the log is
    otherwise intact — so read (write rs) <> Some rs *)
-Theorem C19_drifting_line_refutes_roundtrip : forall (record : Type) (ser : record -> bytes) (de : bytes -> option record) (valid : record -> Prop),
+Theorem C19_drifting_line_alters_the_log : forall (record : Type) (ser : record -> bytes) (de : bytes -> option record) (valid : record -> Prop),
   (forall r, valid r -> de (ser r) = Some r) -> (forall r, valid r -> line_ok (ser r)) ->
   forall a r r' b, Forall valid a -> Forall valid b -> line_ok (ser r) -> de (ser r) = Some r' -> r' <> r ->
   read record de (write record ser (a ++ r :: b)) = Some (a ++ r' :: b) /\
   read record de (write record ser (a ++ r :: b)) <> Some (a ++ r :: b).
 Proof. exact (fun record ser de valid H1 H2 a r r' b Ha Hb Hl Hd Hne => conj (drifting_line_changes_the_log record ser de valid H1 H2 a r r' b Ha Hb Hl Hd) (drifting_line_refutes_roundtrip record ser de valid H1 H2 a r r' b Ha Hb Hl Hd Hne)). Qed.
-Check C19_drifting_line_refutes_roundtrip : forall (record : Type) (ser : record -> bytes) (de : bytes -> option record) (valid : record -> Prop),
+Check C19_drifting_line_alters_the_log : forall (record : Type) (ser : record -> bytes) (de : bytes -> option record) (valid : record -> Prop),
   (forall r, valid r -> de (ser r) = Some r) -> (forall r, valid r -> line_ok (ser r)) ->
   forall a r r' b, Forall valid a -> Forall valid b -> line_ok (ser r) -> de (ser r) = Some r' -> r' <> r ->
   read record de (write record ser (a ++ r :: b)) = Some (a ++ r' :: b) /\
   read record de (write record ser (a ++ r :: b)) <> Some (a ++ r :: b).
-Print Assumptions C19_drifting_line_refutes_roundtrip.
+Print Assumptions C19_drifting_line_alters_the_log.
 
 (* ---------- summarize ---------- *)
 (* total_applied = number of Lint records = sum of lint_counts; each kind has ONE entry whose count is the
@@ -229,10 +290,10 @@ Print Assumptions C19_summary.
 
 (* ---------- the source still has the shape the model mirrors (regenerated from /repo on every run) ---------- *)
 Theorem C19_source_shape :
-  forallb (fun e => snd e) stats_source_shape = true /\ length stats_source_shape = 7%nat.
+  forallb (fun e => snd e) stats_source_shape = true /\ length stats_source_shape = 11%nat.
 Proof. exact stats_source_shape_ok. Qed.
 Check C19_source_shape :
-  forallb (fun e => snd e) stats_source_shape = true /\ length stats_source_shape = 7%nat.
+  forallb (fun e => snd e) stats_source_shape = true /\ length stats_source_shape = 11%nat.
 Print Assumptions C19_source_shape.
 
 (* ---------- non-vacuity ---------- *)
@@ -258,6 +319,25 @@ Example C19_escape_example :
   ser_str [97; 10; 34; 92; 0; 31; 233; 128512] =
   [34; 97; 92; 110; 92; 34; 92; 92; 92; 117; 48; 48; 48; 48; 92; 117; 48; 48; 49; 102; 195; 169; 240; 159; 152; 128; 34].
 Proof. vm_compute. reflexivity. Qed.
+
+(* the hypotheses of C19_text_records_* are satisfiable, non-degenerately (`finite` is a real restriction, the
+   reader does reject what lies outside it): records = JSON strings, their "numbers" = their code points,
+   finite = scalar value, made from text = a Rust string; on a two-session history holding `1e999TH` and LF *)
+Example C19_text_records_nonvacuous :
+  let shape := fun s : text => [Str s] in
+  (forall r : text, Forall scalar r -> Forall scalar r) /\
+  (forall r : text, Forall scalar r -> de_str (render (shape r)) = Some r) /\
+  (forall r : text, Forall scalar r -> forallb lit_okb (shape r) = true) /\
+  Forall (Forall (Forall scalar)) [[[49; 101; 57; 57; 57; 84; 72]; [10]]; [[34; 13]]] /\
+  de_str (render (shape [55296])) <> Some [55296].
+Proof.
+  cbv zeta. split; [|split; [|split; [|split]]].
+  - intros r H. exact H.
+  - intros r H. unfold render. cbn [flat_map render_piece]. rewrite app_nil_r. apply de_ser_str, H.
+  - intros r _. reflexivity.
+  - repeat constructor; unfold scalar; lia.
+  - vm_compute. discriminate.
+Qed.
 
 (* lines: CR LF, a bare CR inside a line, an empty line, an unterminated last line ending in CR (kept) *)
 Example C19_lines_example :
